@@ -51,12 +51,20 @@ def storageV4 (ip : List Nat) (port : Nat) : List Nat :=
 def storageV6 (ip : List Nat) (port flow scope : Nat) : List Nat :=
   le16 AF_INET6 ++ be16 port ++ le32 flow ++ ip ++ le32 scope
 
-/-- `unix::net::SocketAddr::into_storage`: family, then the path / `\0name` /
-nothing, zero padded to 108 bytes. -/
+/-- `unix::net::SocketAddr::into_storage` (address part of the storage pair):
+family, then the path / `\0name` / nothing, zero padded to 108 bytes. -/
 def storageUnix : Addr → List Nat
   | .path p => le16 AF_UNIX ++ p ++ zeros (108 - p.length)
   | .abstr n => le16 AF_UNIX ++ [0] ++ n ++ zeros (107 - n.length)
   | _ => le16 AF_UNIX ++ zeros 108
+
+/-- Length stored next to the address by `into_storage` and handed to the kernel
+by `as_ptr` (src/net.rs): path names count their terminating NUL, abstract names
+are exactly `\0name`, the unnamed address is only the family. -/
+def ptrLenUnix : Addr → Nat
+  | .path p => 2 + p.length + 1
+  | .abstr n => 2 + 1 + n.length
+  | _ => 2
 
 /-- `SocketAddrV4::init` (the length is only asserted). -/
 def initV4 (st : List Nat) : Addr :=
@@ -190,7 +198,7 @@ def stepLine (toks : List String) : List String :=
       match a with
       | some a =>
         let st := storageUnix a
-        [s!"storage={hex st} ptrlen=110 mutlen=110 back={showAddr (initUnix st klen)}"]
+        [s!"storage={hex st} ptrlen={ptrLenUnix a} mutlen=110 back={showAddr (initUnix st klen)}"]
       | none => ["bad-op"]
     | _, _ => ["bad-op"]
   | _ => ["bad-op"]
